@@ -259,6 +259,30 @@ func (m *c46Mon) Receive(rctx *actor.ReceiveContext) {
 	m.inner.Receive(rctx)
 }
 
+// TermErr passes the wrapped sink's terminal error on to the materializer's completion
+// wrapper (terminalErrorActor).
+func (m *c46Mon) TermErr() error {
+	if tea, ok := m.inner.(terminalErrorActor); ok {
+		return tea.TermErr()
+	}
+	return nil
+}
+
+// c46MonitoredSink wraps the sink actor in a c46Mon registered with the case.
+func c46MonitoredSink[T any](c *c46Case, sink Sink[T]) Sink[T] {
+	m := &c46Mon{}
+	c.monMu.Lock()
+	c.mons = append(c.mons, m)
+	c.monMu.Unlock()
+	cp := *sink.desc
+	orig := sink.desc.actorFn
+	cp.actorFn = func(cfg StageConfig) actor.Actor {
+		m.inner = orig(cfg)
+		return m
+	}
+	return Sink[T]{desc: &cp}
+}
+
 // c46Monitored wraps every stage actor of src in a c46Mon registered with the case.
 func c46Monitored[T any](c *c46Case, src Source[T]) Source[T] {
 	stages := make([]*stage, len(src.stages))
@@ -477,7 +501,7 @@ func (c *c46Case) run(sys actor.ActorSystem) c46Outcome {
 	t0 := time.Now()
 	runOne := func(src Source[c46El], out c46Out) bool {
 		k, sink := c46NewSink[c46El](out)
-		h, err := c46Monitored(c, c46Flow(src, out.Flow)).To(sink).Run(ctx, sys)
+		h, err := c46Monitored(c, c46Flow(src, out.Flow)).To(c46MonitoredSink(c, sink)).Run(ctx, sys)
 		if err != nil {
 			o.RunErr = err
 			return false
@@ -488,7 +512,7 @@ func (c *c46Case) run(sys actor.ActorSystem) c46Outcome {
 	}
 	runZip := func(src Source[[]c46El], out c46Out) bool {
 		k, sink := c46NewSink[[]c46El](out)
-		h, err := c46Monitored(c, src).To(sink).Run(ctx, sys)
+		h, err := c46Monitored(c, src).To(c46MonitoredSink(c, sink)).Run(ctx, sys)
 		if err != nil {
 			o.RunErr = err
 			return false
@@ -634,6 +658,15 @@ func c46Increasing(got []c46El) (int, bool) {
 	return -1, true
 }
 
+// violation records a violation; when a protocol monitor saw a stage handle a message
+// before its wiring, the signature carries that root-cause label.
+func (c *c46Case) violation(r *verifrt.Run, sig string, detail any) {
+	if len(c.earlyFacts()) > 0 && !strings.Contains(sig, "msg-before-wire") {
+		sig += ":msg-before-wire"
+	}
+	r.Violation(sig, detail)
+}
+
 func (c *c46Case) judge(r *verifrt.Run, o c46Outcome) {
 	detail := func(extra map[string]any) map[string]any {
 		d := map[string]any{"case": c.describe(), "case_seed": strconv.FormatInt(c.Seed, 10), "elapsed_ms": o.Elapsed.Milliseconds()}
@@ -653,10 +686,10 @@ func (c *c46Case) judge(r *verifrt.Run, o c46Outcome) {
 	}
 	if o.RunErr != nil {
 		if strings.Contains(o.RunErr.Error(), "wire stage") && strings.Contains(o.RunErr.Error(), "not alive") {
-			r.Violation("run-failed:wire-stage-actor-not-alive", detail(map[string]any{"run_err": o.RunErr.Error()}))
+			c.violation(r, "run-failed:wire-stage-actor-not-alive", detail(map[string]any{"run_err": o.RunErr.Error()}))
 			return
 		}
-		r.Violation("run-failed:"+c.Kind, detail(map[string]any{"run_err": o.RunErr.Error()}))
+		c.violation(r, "run-failed:"+c.Kind, detail(map[string]any{"run_err": o.RunErr.Error()}))
 		return
 	}
 	if o.Stuck != "" {
@@ -664,7 +697,7 @@ func (c *c46Case) judge(r *verifrt.Run, o c46Outcome) {
 		if len(facts) > 0 {
 			sig = "graph-never-completes:" + o.StuckMode + ":msg-before-wire"
 		}
-		r.Violation(sig, detail(map[string]any{"stuck": o.Stuck}))
+		c.violation(r, sig, detail(map[string]any{"stuck": o.Stuck}))
 		return
 	}
 	if !o.Done {
@@ -673,12 +706,12 @@ func (c *c46Case) judge(r *verifrt.Run, o c46Outcome) {
 	}
 	for i, err := range o.Errs {
 		if err != nil {
-			r.Violation("unexpected-stream-error:"+c.Kind, detail(map[string]any{"handle": i, "err": err.Error()}))
+			c.violation(r, "unexpected-stream-error:"+c.Kind, detail(map[string]any{"handle": i, "err": err.Error()}))
 			return
 		}
 	}
 	if o.Late > 0 {
-		r.Violation("element-delivered-after-completion:"+c.Kind, detail(map[string]any{"late": o.Late}))
+		c.violation(r, "element-delivered-after-completion:"+c.Kind, detail(map[string]any{"late": o.Late}))
 	}
 	in0 := c.input(0)
 	nb := len(c.Srcs)
@@ -690,11 +723,11 @@ func (c *c46Case) judge(r *verifrt.Run, o c46Outcome) {
 		}
 		got := o.Got[0]
 		if miss, extra := c46Multiset(got, union); len(miss)+len(extra) > 0 {
-			r.Violation(c46LossSig("merge", miss, extra), detail(map[string]any{"missing": c46Head(miss, 10), "missing_count": len(miss), "extra": c46Head(extra, 10), "extra_count": len(extra), "got_len": len(got), "want_len": len(union)}))
+			c.violation(r, c46LossSig("merge", miss, extra), detail(map[string]any{"missing": c46Head(miss, 10), "missing_count": len(miss), "extra": c46Head(extra, 10), "extra_count": len(extra), "got_len": len(got), "want_len": len(union)}))
 			return
 		}
 		if at, ok := c46Increasing(got); !ok {
-			r.Violation("merge-source-order-broken", detail(map[string]any{"at": at, "around": got[max(0, at-3):min(len(got), at+3)]}))
+			c.violation(r, "merge-source-order-broken", detail(map[string]any{"at": at, "around": got[max(0, at-3):min(len(got), at+3)]}))
 		}
 	case "concat":
 		var want []c46El
@@ -731,12 +764,12 @@ func (c *c46Case) judge(r *verifrt.Run, o c46Outcome) {
 			for b := range o.Got {
 				lens[b] = len(o.Got[b])
 			}
-			r.Violation(c46LossSig("balance", miss, extra), detail(map[string]any{"missing": c46Head(miss, 10), "missing_count": len(miss), "in_more_than_one_branch_or_invented": c46Head(extra, 10), "extra_count": len(extra), "branch_lens": lens}))
+			c.violation(r, c46LossSig("balance", miss, extra), detail(map[string]any{"missing": c46Head(miss, 10), "missing_count": len(miss), "in_more_than_one_branch_or_invented": c46Head(extra, 10), "extra_count": len(extra), "branch_lens": lens}))
 			return
 		}
 		for b := range c.Outs {
 			if at, ok := c46Increasing(o.Got[b]); !ok {
-				r.Violation("balance-branch-order-broken", detail(map[string]any{"branch": b, "at": at, "around": o.Got[b][max(0, at-3):min(len(o.Got[b]), at+3)]}))
+				c.violation(r, "balance-branch-order-broken", detail(map[string]any{"branch": b, "at": at, "around": o.Got[b][max(0, at-3):min(len(o.Got[b]), at+3)]}))
 				return
 			}
 		}
@@ -750,7 +783,7 @@ func (c *c46Case) judge(r *verifrt.Run, o c46Outcome) {
 		for b := range c.Outs {
 			for _, e := range o.Got[b] {
 				if c.Slots[e.I] != b {
-					r.Violation("partition-element-in-wrong-branch", detail(map[string]any{"branch": b, "element": e, "fn_result": c.Slots[e.I]}))
+					c.violation(r, "partition-element-in-wrong-branch", detail(map[string]any{"branch": b, "element": e, "fn_result": c.Slots[e.I]}))
 					return
 				}
 			}
@@ -773,7 +806,7 @@ func (c *c46Case) judge(r *verifrt.Run, o c46Outcome) {
 		}
 		got := o.Got[0]
 		if miss, extra := c46Multiset(got, want); len(miss)+len(extra) > 0 {
-			r.Violation(c46LossSig(c.Kind, miss, extra), detail(map[string]any{"missing": c46Head(miss, 10), "missing_count": len(miss), "extra": c46Head(extra, 10), "extra_count": len(extra), "got_len": len(got), "want_len": len(want)}))
+			c.violation(r, c46LossSig(c.Kind, miss, extra), detail(map[string]any{"missing": c46Head(miss, 10), "missing_count": len(miss), "extra": c46Head(extra, 10), "extra_count": len(extra), "got_len": len(got), "want_len": len(want)}))
 		}
 	}
 }
@@ -809,7 +842,7 @@ func (c *c46Case) judgeSeq(r *verifrt.Run, what string, got, want []c46El, detai
 	d := c46SeqDiff(got, want)
 	d["missing_count"], d["extra_count"] = len(miss), len(extra)
 	d["missing"], d["extra"] = c46Head(miss, 10), c46Head(extra, 10)
-	r.Violation(sig, detail(d))
+	c.violation(r, sig, detail(d))
 	return false
 }
 
@@ -827,12 +860,12 @@ func (c *c46Case) judgeZip(r *verifrt.Run, what string, got [][]c46El, wantLen i
 			if j >= wantLen {
 				sig = what + "-longer-than-shortest-source"
 			}
-			r.Violation(sig, detail(map[string]any{"index": j, "tuple": tup, "got_len": len(got), "want_len": wantLen}))
+			c.violation(r, sig, detail(map[string]any{"index": j, "tuple": tup, "got_len": len(got), "want_len": wantLen}))
 			return
 		}
 	}
 	if len(got) != wantLen {
-		r.Violation(what+"-shorter-than-shortest-source", detail(map[string]any{"got_len": len(got), "want_len": wantLen}))
+		c.violation(r, what+"-shorter-than-shortest-source", detail(map[string]any{"got_len": len(got), "want_len": wantLen}))
 	}
 }
 
@@ -886,7 +919,8 @@ func TestVerif_C46(t *testing.T) {
 	rng := r.Rand(46)
 	n := r.N(300, 20000)
 	stuck := 0
-	for done := 0; done < n && stuck < 4; {
+	maxStuck := r.Pick(4, 12) // each stream that never completes costs about 30 s
+	for done := 0; done < n && stuck < maxStuck; {
 		g := 1 // one case per actor system: clean attribution of a stuck system
 		if g > n-done {
 			g = n - done
@@ -951,7 +985,7 @@ func TestVerif_C46(t *testing.T) {
 		}
 		done += g
 	}
-	if stuck >= 4 {
+	if stuck >= maxStuck {
 		r.Note("batch stopped early after %d graphs that did not complete", stuck)
 	}
 }
